@@ -17,6 +17,12 @@ type FaultEvent struct {
 	Site     string      // wallet function that made the failing call
 	Injected int
 	Outcome  string // "failed" (the operation reported the failure), "recovered" (it succeeded all the same), "background"
+	// filled by RunFaultPlan (plan.go):
+	J, D   int               // the fault of the plan: call J fails, and (D > 0) the D-th call after it
+	Hits   []dbwrap.CallInfo // the calls that failed
+	Before int               // calls the operation made before the first failing one
+	After  []dbwrap.CallInfo // the calls the operation made after its first failing call
+	All    []dbwrap.CallInfo // every numbered call of the faulted execution
 }
 
 type FaultResult struct {
